@@ -48,7 +48,9 @@ RULE = ("random shapes (n_x, n_y <= 5, n_z <= 3, both arrangements) x requests f
         "scalars, floats and names, every group name in several spellings, random/uniform with and without count, "
         "counts 0 and larger than the group, ambiguous strings, lists of requests, malformed requests); every case "
         "constructs the real object, runs a short real simulation with the request and with 'all' (same seeds) and "
-        "compares every stored value bit for bit; plus the default-count stream: storeStates='random' on N x 1 x 1 for "
+        "compares every stored value bit for bit; plus the uniform sweep: 'uniform_n' over a whole batch of L vials for "
+        "every (L, n), L <= 60, n <= L + 1 (thorough) / the pairs where a fractional stride would overshoot and four full "
+        "L (quick), constructed only; plus the default-count stream: storeStates='random' on N x 1 x 1 for "
         "every N <= 260 (quick) / 900 (thorough) and a few larger N up to 1000 / 3000, constructed only, count compared with the model's "
         "defaultCount; a case is non-trivial when the request is accepted, at least one "
         "vial is recorded and at least one vial nucleates in the run; distinct by JSON form")
@@ -83,9 +85,14 @@ class _RecRng:
 
 @contextlib.contextmanager
 def _recording(log):
+    import ethz_snow.snowflake  # noqa: F401  (first import, which itself draws random numbers, outside the proxy)
+
     real = np.random.default_rng
 
     def fake(*a, **k):
+        # default_rng(generator) returns the generator itself
+        if a and isinstance(a[0], _RecRng):
+            return a[0]
         return _RecRng(real(*a, **k), log)
 
     np.random.default_rng = fake
@@ -152,7 +159,7 @@ def _run_count(case):
     log = []
     try:
         with _recording(log):
-            S = _mk(case, "random")
+            S = _mk(case, to_py(case["spec"]))
     except HarnessError:
         raise
     except Exception as e:
@@ -164,7 +171,7 @@ def _run_count(case):
 
 
 def run_impl(case):
-    if case.get("kind") == "count":
+    if case.get("kind") in ("count", "sweep"):
         return _run_count(case)
     log = []
     obs = {"raise": None}
@@ -263,7 +270,7 @@ def compare(case, impl, model):
     if impl["emptyStore"] != model["emptyStore"]:
         dis.append(f"emptyStore: impl {impl['emptyStore']} vs model {model['emptyStore']}")
     if impl.get("countonly"):
-        if impl["count"] != model.get("count"):
+        if case.get("kind") == "count" and impl["count"] != model.get("count"):
             dis.append(f"default count for N={impl['n']}: impl records {impl['count']} vials, model defaultCount = {model.get('count')}")
         return dis
     if impl["xshape"][0] != 2 * len(model["mask"]):
@@ -446,7 +453,7 @@ def predicates(case, impl):
         out.append(Failure(clause="accept_valid", key=f"accept_valid|{site}|{sc}|{raised}",
                            detail=f"{where}: rejected with {raised}"))
     if raised or impl.get("countonly"):
-        if impl.get("countonly") and not raised:
+        if impl.get("countonly") and not raised and case.get("kind") == "count":
             c = impl["count"]
             lo = -(-N // 10)
             if not (lo <= c <= lo + 1) or len(set(impl["mask"])) != c:
@@ -467,6 +474,9 @@ def predicates(case, impl):
 
 
 def classify(case, impl):
+    if case.get("kind") == "sweep":
+        return ["spec=uniform-sweep", f"raise={impl['raise']}" if impl.get("raise") else
+                ("recorded=asked" if impl.get("count") == int(case["spec"]["str"].split("_")[1]) else "recorded<asked")]
     if case.get("kind") == "count":
         c, N = impl.get("count"), case["nx"]
         return ["spec=default-count", "count=ceil(N/10)" if c == -(-N // 10) else "count=ceil(N/10)+1 (IEEE product above the integer)"]
@@ -480,6 +490,8 @@ def classify(case, impl):
 
 
 def nontrivial(case, impl):
+    if case.get("kind") == "sweep":
+        return not impl.get("raise") and impl.get("count", 0) > 0
     if case.get("kind") == "count":
         return not impl.get("raise") and impl.get("count", 0) > 0
     return not impl.get("raise") and bool(impl.get("mask")) and impl.get("nuc", 0) > 0
@@ -605,6 +617,18 @@ def cases(rng, tier):
                        spec={"kind": "seq", "items": items, "tuple": tup})
     for _ in range(n):
         yield _case(rng)
+    # 'uniform_n' over a whole batch of L vials (constructed only): never more vials than asked, never outside,
+    # at least one — every (L, n) with L <= 60 in thorough; in quick the pairs where a fractional stride
+    # np.arange(0, L, L/n) overshoots by float end-point rounding, and a sample
+    if tier == "quick":
+        pairs = [(49, 11), (49, 22), (49, 44), (15, 13), (17, 7), (9, 4), (9, 3), (10, 3), (7, 7), (7, 8), (12, 5), (60, 59)]
+        pairs += [(L, n) for L in (5, 16, 23, 36) for n in range(1, L + 2)]
+    else:
+        pairs = [(L, n) for L in range(1, 61) for n in range(1, L + 2)]
+    for L, n in pairs:
+        yield dict(kind="sweep", arr="square", nx=L, ny=1, nz=1, seed=1, spec={"kind": "str", "str": f"uniform_{n}"})
+    for n in (11, 22, 44, 13):
+        yield dict(kind="sweep", arr="square", nx=7, ny=7, nz=1, seed=1, spec={"kind": "str", "str": f"uniform_{n}"})
     # default count int(ceil(0.1*N)) for every N of a range (and some large N)
     # (the model evaluates the exposure vector of the batch, O(N^2): keep N moderate)
     top = 260 if tier == "quick" else 900
